@@ -1,8 +1,30 @@
 //! Utility for UI XML generation.
 
 use super::XmlWriter;
+use quick_xml::escape;
 use quick_xml::events::{BytesStart, BytesText, Event};
 use std::io;
+
+/// Creates text content which will be read back verbatim.
+///
+/// A literal carriage return would be normalized to a line feed by XML parser, so it is
+/// written as character reference.
+pub(super) fn make_text(content: &str) -> BytesText<'static> {
+    let escaped = escape::partial_escape(content).replace('\r', "&#13;");
+    BytesText::from_escaped(escaped)
+}
+
+/// Pushes attribute which value will be read back verbatim.
+///
+/// Literal white space characters but space would be normalized to a space by XML parser,
+/// so they are written as character references.
+pub(super) fn push_attribute(tag: &mut BytesStart, key: &str, value: &str) {
+    let escaped = escape::escape(value)
+        .replace('\t', "&#9;")
+        .replace('\n', "&#10;")
+        .replace('\r', "&#13;");
+    tag.push_attribute((key.as_bytes(), escaped.as_bytes()));
+}
 
 pub(super) fn write_tagged_str<W, S, T>(
     writer: &mut XmlWriter<W>,
@@ -16,7 +38,7 @@ where
 {
     let tag = BytesStart::new(tag.as_ref());
     writer.write_event(Event::Start(tag.borrow()))?;
-    writer.write_event(Event::Text(BytesText::new(content.as_ref())))?;
+    writer.write_event(Event::Text(make_text(content.as_ref())))?;
     writer.write_event(Event::End(tag.to_end()))?;
     Ok(())
 }
